@@ -606,9 +606,17 @@ def run_session(exe, docs, tag="d", timeout=8.0, window=400):
     s = None
 
     def start():
-        srv = lspclient.Server(exe)
-        srv.initialize(diagnostics=False)
-        return srv
+        # a loaded machine can delay process start-up: retry, never report a timing artefact
+        last = None
+        for attempt in range(4):
+            srv = lspclient.Server(exe)
+            try:
+                if srv.initialize(diagnostics=False, timeout=30.0) is not None:
+                    return srv
+            except queue.Empty as e:
+                last = e
+            srv.kill()
+        raise RuntimeError("lsp4spl does not answer `initialize` (4 attempts, 30 s each): %r" % (last,))
 
     try:
         s = start()
@@ -634,9 +642,21 @@ def run_session(exe, docs, tag="d", timeout=8.0, window=400):
                     else:
                         res.append(m["result"])
                 if dead:
+                    # no alarm from timing: ask again in a fresh process with a long timeout before calling it mute
                     s.kill()
                     s = start()
                     s.open(uri, text)
+                    r = reqs[len(res) - 1]
+                    try:
+                        m = s.wait_response(s.request_async(METHOD[r[0]], _params(uri, r)), timeout=25.0, others=[])
+                    except queue.Empty:
+                        m = None
+                    if m is not None and "result" in m:
+                        res[-1] = m["result"]
+                    else:
+                        s.kill()
+                        s = start()
+                        s.open(uri, text)
                 i = len(res)
             results.append(res)
             s.close(uri)
